@@ -120,6 +120,12 @@ class Ctx:
         except AnalysisError as e:
             self.soft_fail(f"{getattr(fn, '__name__', 'rule')}: {e}")
             return None
+        except Exception as e:  # an unexpected shape broke the rule's own code: a refusal, never a verdict
+            import traceback
+
+            tb = traceback.extract_tb(e.__traceback__)[-1]
+            self.soft_fail(f"{getattr(fn, '__name__', 'rule')}: internal {type(e).__name__}: {e} at {tb.filename.split('/')[-1]}:{tb.lineno}")
+            return None
 
     def end_of_run(self):
         if self.shortfalls and not any(o.status == "violation" for o in self.obs):
